@@ -50,8 +50,10 @@ type c20Obs struct {
 	Extra   map[string]any `json:"extra,omitempty"` // oracle tables computed from third-party libraries
 }
 
-func (*c20) ID() string        { return "C20" }
-func (*c20) CoqImport() string { return "From Helm Require Import Values.Tree Misc.Panics Misc.PanicsStorage Misc.PanicsDeps Misc.PanicsIndex Misc.PanicsSort Misc.PanicsSchema Values.Strvals Run.RunC20." }
+func (*c20) ID() string { return "C20" }
+func (*c20) CoqImport() string {
+	return "From Helm Require Import Values.Tree Misc.Panics Misc.PanicsStorage Misc.PanicsDeps Misc.PanicsIndex Misc.PanicsSort Misc.PanicsSchema Values.Strvals Run.RunC20."
+}
 func (*c20) Rule() string {
 	return "structured stream (storage records decodable/undecodable/without info x Get/List/Query/ListDeployed/Deployed/Last on Secrets and ConfigMaps; " +
 		"chart trees with null/duplicate/aliased/missing dependencies and import-values items of every YAML type through LoadFiles+ProcessDependencies; " +
